@@ -121,7 +121,7 @@ theorem C14_meta_scanner_runs_on_full_blocks (cs : CharSpec) (ext : Ext) (input 
 theorem C14_other_blocks_make_no_metadata (cs : CharSpec) (ext : Ext) (o : Bool) (b : List Tok)
     (evs : Array (Ev α)) (p : Option String) (hb : b ≠ [])
     (hh : b.head?.map (·.kind) ≠ some .metaStart) :
-    (runBlock (α := α) cs ext o b evs p).1.toList.filter Ev.isMeta = evs.toList.filter Ev.isMeta := by
+    (runBlock (α := α) cs ext o b evs p).1.toList.filter Ev.isKey = evs.toList.filter Ev.isKey := by
   rw [runBlock_evs cs ext o b evs p hb]
   apply parseBlock_other_head
   cases b with
@@ -134,8 +134,8 @@ theorem C14_meta_block_same_entry (cs : CharSpec) (ext : Ext) (b : List Tok)
     (evs evs' : Array (Ev α)) (p p' : Option String) (hb : b ≠ [])
     (hh : b.head?.map (·.kind) = some .metaStart) :
     ∃ new : List (Ev α),
-      (runBlock (α := α) cs ext true b evs p).1.toList.filter Ev.isMeta = evs.toList.filter Ev.isMeta ++ new ∧
-      (runMetaBlock (α := α) cs ext b evs' p').1.toList.filter Ev.isMeta = evs'.toList.filter Ev.isMeta ++ new := by
+      (runBlock (α := α) cs ext true b evs p).1.toList.filter Ev.isKey = evs.toList.filter Ev.isKey ++ new ∧
+      (runMetaBlock (α := α) cs ext b evs' p').1.toList.filter Ev.isKey = evs'.toList.filter Ev.isKey ++ new := by
   refine ⟨newOf (entryOf (α := α) cs ext b), ?_, runMetaBlock_meta cs ext b evs' p' hb⟩
   have h := runBlock_meta cs ext b evs p hb
   have hm : isMetaBlock b = true := by
@@ -146,14 +146,14 @@ theorem C14_meta_block_same_entry (cs : CharSpec) (ext : Ext) (b : List Tok)
   exact h
 
 /-- `C14_agree` at the level of parser events, for EVERY input without front matter, every
-    character table and every extension set: the `Metadata` events produced by the full
+    character table and every extension set: the `Metadata` (and front matter) events produced by the full
     `PullParser` are exactly the events produced by the metadata-only parser
     (`into_meta_iter`), same keys, same values, same spans, same order.  (What the analysis makes of
     them is the same code in both cases and is compared per run.) -/
 theorem C14_metadata_events_agree (cs : CharSpec) (ext : Ext) (input : List Char)
     (h : parseFrontmatter cs input = none) :
-    (pullEvents (α := α) cs ext input).1.toList.filter Ev.isMeta =
-    (pullMetaEvents (α := α) cs ext input).1.toList.filter Ev.isMeta :=
+    (pullEvents (α := α) cs ext input).1.toList.filter Ev.isKey =
+    (pullMetaEvents (α := α) cs ext input).1.toList.filter Ev.isKey :=
   metadata_events_agree cs ext input h
 
 /-! the corner cases, on concrete streams (both sides computed):
